@@ -182,6 +182,103 @@ def check(chk: Check) -> None:
 
     # --------------------------------------------------------------------- R3
     charge_rules(chk, R3, R3)
+    _r4_r5(chk)
+
+
+def _r4_r5(chk: Check) -> None:
+    """Two more clauses of the reference semantics that are code shape: string-on-the-left coercion of `+`, and
+    statements yield None / a program yields the value of its last line."""
+    F = chk.facts
+    R4 = chk.rule('C07.R4', 'string-on-the-left concatenation coercion: `+` converts its right operand with str() exactly when the '
+                            'left operand is a string and the right one is not; no other operand is converted', floor=1)
+    R5 = chk.rule('C07.R5', 'statements yield None and a program yields its last line: name assignment and compound assignment '
+                            'return None; the statement-list node returns the value of the last statement evaluated (None when empty)', floor=3)
+    T = C.templates(F)
+    STR = ('ref', 'builtin', 'str')
+    # the class built for `expression PLUS expression`
+    plus_cls = None
+    for t in T.all():
+        if t.raises is None and isinstance(t.result, tuple) and t.result[:1] == ('new',) and dict(t.result[2]).get('op') == ('const', '+'):
+            plus_cls = t.result[1]
+    if plus_cls is None:
+        raise AnalysisError('anchor vanished: no production building a node with op "+"')
+    q = plus_cls + '.eval'
+    selft, stt = ('param', om.self_param(F, q)), ('param', om.state_param(F, q))
+    kinds = om.op_field_kinds(F, plus_cls)
+    f1, f2 = [f for f, k in kinds.items() if k == 'op'][:2]
+    problems = []
+    seen_coercion = False
+    for p in om.eval_paths(F, plus_cls, '+'):
+        if not p.normal:
+            continue
+        res = {c[0]: freeze(c[2].result) for c in child_events(F, p, selft, stt) if c[2].kind == 'call'}
+        a, b = res.get(f1), res.get(f2)
+        ret = p.outcome[1]
+        if not (isinstance(ret, tuple) and ret[:2] == ('binop', '+')):
+            continue
+        a_str = b_str = None
+        for c, v, _ in p.assumptions:
+            if isinstance(c, tuple) and c[:2] == ('pcall', 'isinstance') and c[2][1] == STR:
+                if c[2][0] == a:
+                    a_str = v
+                if c[2][0] == b:
+                    b_str = v
+        left_conv = ret[2] != a
+        right_conv = ret[3] != b
+        if left_conv:
+            problems.append('the left operand is converted (%s)' % show(ret[2]))
+        if a_str is True and b_str is False:
+            seen_coercion = True
+            want = ('call', 0, STR, (A.strip_ids(b),), ())
+            if A.strip_ids(ret[3]) != want:
+                problems.append('string + non-string adds %s, not str(<right operand>)' % show(ret[3]))
+        elif right_conv:
+            problems.append('the right operand is converted (%s) although the left one is %s and the right one is %s' % (
+                show(ret[3]), {True: 'a string', False: 'not a string', None: 'of unknown type'}[a_str],
+                {True: 'a string', False: 'not a string', None: 'of unknown type'}[b_str]))
+    if not seen_coercion:
+        problems.append('no path converts the right operand when the left one is a string and the right one is not '
+                        '("n=" + 5 raises TypeError instead of giving "n=5")')
+    chk.require(not problems, R4, q + " [op='+']", F.func(q).where, '; '.join(sorted(set(problems))) or 'str + non-str -> str + str(right); nothing else is converted')
+
+    # R5: statements
+    for fm in common.assignment_forms(chk):
+        if fm['target'] != 'op':
+            continue
+        cls = fm['cls']
+        ops = [None]
+        if fm['op_field']:
+            from .c12 import common_ops
+            ops = common_ops(chk, fm)
+        bad = []
+        for op in ops:
+            for p in om.eval_paths(F, cls, op, field=fm['op_field'] or 'op'):
+                if p.normal and p.outcome[1] != ('const', None):
+                    bad.append('returns %s' % show(p.outcome[1]))
+        chk.require(not bad, R5, cls + '.eval yields None', F.func(cls + '.eval').where, '; '.join(sorted(set(bad))) or 'every normal path returns None')
+    # the statement-list node: the class stored into the parser's ast slot
+    code_cls = None
+    for t in T.all():
+        for e in t.events:
+            if e.kind == 'store_attr' and isinstance(freeze(e.value), tuple) and freeze(e.value)[:1] == ('new',):
+                code_cls = freeze(e.value)[1]
+    if code_cls is None:
+        raise AnalysisError('anchor vanished: no grammar action stores the statement-list node')
+    q = code_cls + '.eval'
+    selft, stt = ('param', om.self_param(F, q)), ('param', om.state_param(F, q))
+    bad = []
+    n = 0
+    for p in om.eval_paths(F, code_cls):
+        if not p.normal:
+            continue
+        n += 1
+        ce = [c for c in child_events(F, p, selft, stt) if c[2].kind == 'call']
+        if ce:
+            if p.outcome[1] != freeze(ce[-1][2].result):
+                bad.append('with statements present the program yields %s, not the value of the last statement' % show(p.outcome[1]))
+        elif p.outcome[1] != ('const', None):
+            bad.append('an empty program yields %s' % show(p.outcome[1]))
+    chk.require(not bad and n, R5, q + ' yields the last line', F.func(q).where, '; '.join(sorted(set(bad))) or 'value of the last statement, None when empty')
 
 
 def _arity(F, ent) -> Tuple[int, Optional[int]]:
